@@ -33,7 +33,7 @@ def plain(h):
 
 def run_case(ctx, rng, idx):
     m = idx % 8
-    if idx in (7, 15) or (ctx.tier == "thorough" and idx % 2000 in (23, 31, 39, 47)):
+    if idx in (7, 15, 23) or (ctx.tier == "thorough" and idx % 2000 in (23, 31, 39, 47, 55)):
         return saturated_pool_case(ctx, rng, idx)
     [case_random, case_uniform, case_scale_free, case_hoad, case_add, case_shuffle, case_shuffle, case_shuffle][m](ctx, rng, idx)
 
@@ -284,21 +284,28 @@ def saturated_pool_case(ctx, rng, idx):
 
     n_seeds = 1500 if ctx.tier == "quick" else 6000
     conf = [(4, 2), (5, 2), (6, 1), (5, 3)][(idx // 8) % 4]
+    p_ = 1
+    if idx == 23 or (ctx.tier == "thorough" and idx % 2000 == 55):
+        # a LARGE saturated class rewired in part: all 780 pairs over 40 nodes, p = 0.5 (the kept half already occupies half of the
+        # combinations, the rewired half has to land in what is left)
+        conf, p_, n_seeds = (40, 2), 0.5, 25 if ctx.tier == "quick" else 100
     pool = list(range(conf[0]))
     inside = list(itertools.combinations(pool, conf[1]))
-    outside = [(10, 11, 12, 13), (11, 12, 14, 15, 16)] + ([(12, 13)] if conf[1] != 2 else [(12, 13, 17)])
+    o_ = 10 if conf[0] <= 9 else 1000  # (labels of the other hyperedges: never in the pool)
+    outside = [(o_, o_ + 1, o_ + 2, o_ + 3), (o_ + 1, o_ + 2, o_ + 4, o_ + 5, o_ + 6)] + ([(o_ + 2, o_ + 3)] if conf[1] != 2 else [(o_ + 2, o_ + 3, o_ + 7)])
+    outside += [tuple(range(o_ + 20 + 4 * j, o_ + 24 + 4 * j)) for j in range(10)] if conf[0] > 9 else []
     ctx.event(f"saturated-shuffle-pool:{conf}")
     bad = None
     for seed in range(n_seeds):
         g = hgx.Hypergraph(inside + outside)
-        g.add_node(99)
-        r = call(quiet, gr.random_shuffle, g, size=conf[1], inplace=True, p=1, seed=seed)
+        g.add_node(9999)
+        r = call(quiet, gr.random_shuffle, g, size=conf[1], inplace=True, p=p_, seed=seed)
         if isinstance(r, _Raised):
             ctx.check("C14:shuffle", False, f"C14:random_shuffle:raised:{type(r.e).__name__}:saturated-pool", lambda: {"conf": conf, "seed": seed, "error": repr(r)})
             return
         out = [tuple(e) for e in g.get_edges() if len(e) == conf[1]]
         others = sorted(tuple(e) for e in g.get_edges() if len(e) != conf[1])
-        ok = all(set(e) <= set(pool) for e in out) and others == sorted(outside) and set(g.get_nodes()) == set(pool) | {99} | set().union(*map(set, outside)) and len(out) <= len(inside)
+        ok = all(set(e) <= set(pool) for e in out) and others == sorted(outside) and set(g.get_nodes()) == set(pool) | {9999} | set().union(*map(set, outside)) and len(out) <= len(inside)
         ctx.tick("C14:shuffle")
         if not ok:
             bad = {"conf": conf, "seed": seed, "got": out[:12], "others": others}
